@@ -64,6 +64,7 @@ type Config struct {
 	TLS        bool   `json:"tls,omitempty"`
 	Renderer   int    `json:"renderer,omitempty"` // 0 default, 1 custom (418), 2 silent
 	MaxSteps   int    `json:"max_steps,omitempty"`
+	MeterAlloc bool   `json:"meter_alloc,omitempty"` // measure the bytes allocated by the run (C07: unverified size prefaces)
 	WireCut    *WireCut `json:"wire_cut,omitempty"` // the connection breaks after exactly this many bytes were delivered in one direction
 	ProxyMode  int    `json:"proxy,omitempty"`
 	Extra      []ExtraMethod `json:"extra,omitempty"`  // registered methods no RPC targets
